@@ -144,12 +144,43 @@ def pipeHandle (inp impl : Json) : Verdict :=
        else if !prompt || !late.isEmpty then s!"pipe: a complete message was not returned until the peer wrote again (or closed): returned after write {iAfter.take nMsgs}, complete after write {need}; writer's patience ran out after write(s) {late}"
        else s!"pipe: the time-out did not come within [period, period + 5 s]") }
 
+/-! ### op "clientstall": reader idle, then a request, then the client stalls -/
+
+def stallHandle (inp impl : Json) : Verdict :=
+  let d := unhex (str (field inp "partial"))
+  let site := Site.client
+  let period := site.timeoutMs
+  -- what a reader at that site must report when the stream falls silent after `d`
+  let mRes := (readAllWith (readAt site) 1 ⟨d, [], .stall⟩).results.map (showRes site.limit)
+  let spec := (expected site.limit 1 d .stall).map (showRes site.limit)
+  let err := str (field impl "err")
+  let iRes : List String :=
+    if err == "timeout" then
+      [if str (field impl "what") == "nothing" then "timeout:nothing"
+       else s!"timeout:{str (field impl "what")}:{nat (field impl "read")}/{nat (field impl "of")}"]
+    else [err]
+  let el := nat (field impl "elapsedMs")
+  -- within the period, counted from the beginning of the read (generous margin: 10 s; 1 s of slack
+  -- before, for the op sees the read begin a moment after the reader started its clock)
+  let timely := period ≤ el + 1000 && el ≤ period + 10000
+  if !(bool (field impl "leadOK")) || !(bool (field impl "idleFirst")) then
+    { agree := false, holds := true, nontrivial := false, why := "driver: clientstall: the schedule (reader idle first, lead answered) could not be set up" } else
+  let holds := err == "timeout" && iRes == spec && timely
+  { agree := holds && iRes == mRes && nat (field impl "periodMs") == period, holds := holds, nontrivial := true,
+    cls := "clientstall:" ++ (if d.isEmpty then "nothing" else if d.length < 4 then "prefix" else "message"),
+    model := Json.mkObj [("results", toJson mRes), ("periodMs", toJson period)],
+    why := if holds then "" else
+      if err == "none" then s!"clientstall: the reader was waiting idle, then a request was sent and the client stalled after {d.length} byte(s): no time-out error {el} ms after the beginning of the read (period of the site: {period} ms) — the case has no outcome, the client is not aborted"
+      else if err != "timeout" || iRes != spec then s!"clientstall: expected {spec}, got {iRes}"
+      else s!"clientstall: the time-out error came {el} ms after the beginning of the read; the period of the site is {period} ms" }
+
 def handle : Handler := fun op inp impl =>
   if !(isNull (field impl "panic")) then
     { agree := false, holds := false, why := "panic: " ++ str (field impl "panic") } else
   match op with
   | "site" => siteHandle inp impl
   | "pipe" => pipeHandle inp impl
+  | "clientstall" => stallHandle inp impl
   | "read" =>
     let data := unhex (str (field inp "bytes"))
     let caps := natList (field inp "caps")
@@ -184,9 +215,20 @@ def handle : Handler := fun op inp impl =>
     let bodies := (strList (field impl "bodies")).map unhex
     let want := hex (bodies.flatMap encode)
     let got := str (field impl "stream")
-    { agree := got == want, holds := got == want, nontrivial := !bodies.isEmpty,
-      model := Json.mkObj [("stream", want)],
-      why := if got == want then "" else "encoder: stream is not the concatenation of prefix+body" }
+    -- round trip: what the real reader of the same variant makes of the written stream
+    let readBack := bool (field inp "readBack")
+    let iBack := (arr (field impl "back")).map showImpl
+    let wantBack := bodies.map (fun b => "msg:" ++ hex b) ++ ["eof"]
+    let backOK := !readBack || iBack == wantBack
+    let holds := got == want && backOK
+    { agree := holds, holds := holds, nontrivial := !bodies.isEmpty,
+      cls := "enc:" ++ str (field inp "via") ++ (if readBack then ":roundtrip" else ""),
+      model := if got == want then Json.null else Json.mkObj [("stream", want)],
+      why := if got != want then
+          s!"encoder ({str (field inp "via")}): the bytes on the wire are not prefix+message for message sizes {bodies.map List.length}: {got.length / 2} bytes written, {want.length / 2} expected"
+        else if !backOK then
+          s!"round trip ({str (field inp "via")}): messages of sizes {bodies.map List.length} were read back as {iBack.map (fun x => x.take 40)}"
+        else "" }
   | "peer" =>
     -- the reference client must have read every request written to its stdin, however the byte
     -- stream was split across reads, in the binary and in the JSON wire variant
